@@ -4,6 +4,7 @@ C10.bij   X_to_proto / proto_to_X composed through the attribute class construct
 C10.desc  every proto field named exists in the descriptor of its message type (from the pb2 module AST)
 C10.has   in `v if proto.HasField(S) else d`, v reads field S; forward guards test the attribute they assign
 C10.top   the top-level payload kinds map 1:1 in both directions, constructor order respected
+C10.ser   the payload-carrying entity serialises message_to_protobytes(current attributes) on every path and parses the <proto> data
 C10.acc   media entity accessors address the attribute object the constructor populated
 """
 import ast
@@ -313,6 +314,11 @@ def rule_bij_desc_has(ctx, cv):
                 rev_by_field[f] = (attr, slot, e, nested)
         fwd_fields = {}
         for (p, a, stmt, guard, nested) in entries:
+            if p in fwd_fields and fwd_fields[p][1] is not stmt:
+                first = fwd_fields[p][1]
+                merge = any(isinstance(x, ast.Call) and isinstance(x.func, ast.Attribute) and x.func.attr == "MergeFrom" for st_ in (first, stmt) for x in ast.walk(st_))
+                ctx.violate("C10.bij", where(CONV, "AttributesConverter.%s_to_proto" % kind, stmt.lineno), stmt,
+                            "proto field %r is written twice on the way to the wire (also by `%s`)%s" % (p, unparse(first)[:70], ": MergeFrom appends repeated sub-fields, so lists inside it (mentions) come back doubled" if merge else ""))
             fwd_fields[p] = (a, stmt, nested)
         for p, (a, stmt, nested) in sorted(fwd_fields.items()):
             w = where(CONV, "AttributesConverter.%s_to_proto" % kind, stmt.lineno)
@@ -365,6 +371,59 @@ def rule_top(ctx, cv):
         fn = cv.cls.methods.get(name)
         ok = fn is not None and all(any(isinstance(c, ast.Call) and isinstance(c.func, ast.Attribute) and c.func.attr == m for c in ast.walk(fn)) for m in must)
         ctx.check("C10.top", ok, where(CONV, "AttributesConverter." + name, getattr(fn, "lineno", None)), name, "%s must go through %s" % (name, " and ".join(must)), "bytes <-> Message <-> attributes")
+
+
+PROTOMSG = "yowsup/layers/protocol_messages/protocolentities/protomessage.py"
+
+
+def rule_ser(ctx):
+    """the entity that carries the payload: on every path of toProtocolTreeNode the <proto> data is
+    message_to_protobytes(<the entity's current attribute object>) - not a stored copy of received bytes, which goes
+    stale when the application edits the entity through its accessors; fromProtocolTreeNode feeds the attribute object
+    from the <proto> child's data."""
+    from ..cfg import CFG
+    from ..consts import Evaluator
+    from ..terms import PathEval, all_path_results, subterms, show
+    repo = ctx.repo
+    cls = repo.cls(PROTOMSG, "ProtomessageProtocolEntity")
+    fn = cls.methods.get("toProtocolTreeNode")
+    w = where(PROTOMSG, "ProtomessageProtocolEntity.toProtocolTreeNode", getattr(fn, "lineno", None))
+    if fn is None:
+        ctx.undecided("C10.ser", w, "toProtocolTreeNode", "method vanished")
+        return
+    pe = PathEval(fn, Evaluator(repo, cls.module, cls))
+    res = [r for r in all_path_results(CFG(fn), pe) if r["terminal"] == "exit"]
+    bad = []
+    n = 0
+    for r in res:
+        protos = [e for e in r["events"] if e["func"] == "ProtoProtocolEntity"]
+        if len(protos) != 1 or not protos[0]["args"]:
+            bad.append("a path builds %d <proto> entities" % len(protos))
+            continue
+        n += 1
+        a = protos[0]["args"][0]
+        ok = isinstance(a, tuple) and a[0] == "call" and a[1] == "message_to_protobytes" and len(a[3]) == 1 and \
+            a[3][0] in (("self", "_message_attributes"), ("self", "message_attributes"))
+        if not ok:
+            src = [t for t in subterms(a) if isinstance(t, tuple) and t[0] == "self"]
+            bad.append("on some path the payload is %s%s" % (show(a)[:70], " (a stored field: stale after the entity is edited through its accessors)" if src and not (isinstance(a, tuple) and a[0] == "call") else ""))
+    ctx.check("C10.ser", not bad and n > 0, w, "payload = message_to_protobytes(current attributes) on every path (%d)" % n,
+              "; ".join(sorted(set(bad))[:2]), "serialised from the current attribute object on %d path(s)" % n)
+    pf = cls.methods.get("fromProtocolTreeNode")
+    wp = where(PROTOMSG, "ProtomessageProtocolEntity.fromProtocolTreeNode", getattr(pf, "lineno", None))
+    if pf is None:
+        ctx.undecided("C10.ser", wp, "fromProtocolTreeNode", "method vanished")
+        return
+    pe = PathEval(pf, Evaluator(repo, cls.module, cls), selfname="cls")
+    res = [r for r in all_path_results(CFG(pf), pe) if r["terminal"] == "exit"]
+    okp = bool(res)
+    for r in res:
+        parse = [e for e in r["events"] if e["func"] == "ParseFromString"]
+        conv = [e for e in r["events"] if e["func"] in ("proto_to_message", "protobytes_to_message")]
+        from_proto = any(isinstance(t, tuple) and t[0] == "call" and t[1] == "getChild" and t[3] and t[3][0] == ("const", "proto") for e in parse + conv for a_ in e["args"] for t in subterms(a_))
+        if len(conv) != 1 or not from_proto:
+            okp = False
+    ctx.check("C10.ser", okp, wp, "attributes = proto_to_message(parse(<proto> data)) on every path", "the attribute object must be parsed from the <proto> child's data on every path", "parsed from the <proto> child")
 
 
 def rule_acc(ctx):
@@ -423,9 +482,11 @@ def run(ctx):
     ctx.rule("C10.has", "HasField / None guards name the field they guard", floor=60)
     ctx.rule("C10.top", "top-level kinds 1:1, constructor order", floor=5)
     ctx.rule("C10.acc", "media entity accessors", floor=80)
+    ctx.rule("C10.ser", "the payload entity serialises its current attributes and parses the <proto> data", floor=2)
     ctx.assume("google.protobuf's own encoding is trusted; descriptors are read from the generated modules' Descriptor(...) calls")
     cv = Conv(ctx)
     ctx.units["C10.descriptors"] = len(cv.descs)
-    rule_bij_desc_has(ctx, cv)
-    rule_top(ctx, cv)
-    rule_acc(ctx)
+    ctx.guarded("C10.bij_desc_has", rule_bij_desc_has, ctx, cv)
+    ctx.guarded("C10.top", rule_top, ctx, cv)
+    ctx.guarded("C10.ser", rule_ser, ctx)
+    ctx.guarded("C10.acc", rule_acc, ctx)
